@@ -327,6 +327,23 @@ func runC06(c *Ctx) error {
 		}
 	}
 
+	// ---- the store's tip is a short branch of heavy headers; the honest branch is longer but lighter per header: the reply
+	//      up to the next checkpoint contains no longest-chain header (receivedCheckpoint with finalHash == nil) ----
+	for _, eng := range engines {
+		for _, cp := range []int{1, 2000} {
+			u := &History{}
+			u.Subs = append(u.Subs, linearSubs(100, genesisID, 6, bitsW2, tsOld)...)
+			u.Subs = append(u.Subs, linearSubs(200, genesisID, 1, bitsW8, tsOld)...)
+			for _, cps := range [][]cpSpec{{{2, 101}}, {{2, 101}, {6, 105}}, nil} {
+				sc := &Scenario{Eng: eng, Cps: cps, U: u, Init: []int{200},
+					Nodes: []*nodeSpec{{P: 1, Cap: cp, Chain: seqInts(100, 6)}}, Cmds: []string{"C1", "R60"}}
+				if err := g.do(sc, "fork-heavy-short-branch"); err != nil {
+					return err
+				}
+			}
+		}
+	}
+
 	// ---- random mixtures ----
 	nr := c.Pick(250, 4000)
 	for i := 0; i < nr; i++ {
